@@ -1288,11 +1288,13 @@ class Executor:
         res = c.result(self, path, bound, node)
         if getattr(c, "out_params", None) or getattr(c, "returns_self", False):
             res, outs = res
+            is_method = isinstance(getattr(node, "func", None), ast.Attribute) and len(args) == len(getattr(node, "args", [])) + 1
             for pn, newv in outs.items():
-                if pn in names and names.index(pn) < len(getattr(node, "args", [])):
-                    self.assign(node.args[names.index(pn)], newv, path)
-                elif pn == names[0] and isinstance(getattr(node, "func", None), ast.Attribute):
+                k_ = names.index(pn) if pn in names else -1
+                if is_method and k_ == 0:
                     self.assign(node.func.value, newv, path)      # the receiver of a method call
+                elif k_ >= 0 and (k_ - (1 if is_method else 0)) < len(getattr(node, "args", [])):
+                    self.assign(node.args[k_ - (1 if is_method else 0)], newv, path)
                 else:
                     raise Unsupported(f"cannot write back out-parameter {pn} of {c.qual}")
                 bound[pn] = newv
@@ -1804,22 +1806,35 @@ class Executor:
             return ex.ev(node, p2)
         # ---- map / elementwise update: every loop variable of the nest is one index position (each once); the remaining
         #      index positions are expressions that do not depend on the nest's variables (a fixed row / column)
-        lv_positions = [ix.id for ix in idx_nodes if isinstance(ix, ast.Name) and ix.id in lvars]
-        other_ok = all((isinstance(ix, ast.Name) and ix.id in lvars) or not u_ for ix, u_ in zip(idx_nodes, uses_lv))
+        def _affine(ix):
+            """(loop var, constant offset) for an index of the form v, c + v or v + c"""
+            if isinstance(ix, ast.Name) and ix.id in lvars:
+                return ix.id, 0
+            if isinstance(ix, ast.BinOp) and isinstance(ix.op, ast.Add):
+                a_, b_ = ix.left, ix.right
+                if isinstance(a_, ast.Constant) and isinstance(a_.value, int) and isinstance(b_, ast.Name) and b_.id in lvars:
+                    return b_.id, a_.value
+                if isinstance(b_, ast.Constant) and isinstance(b_.value, int) and isinstance(a_, ast.Name) and a_.id in lvars:
+                    return a_.id, b_.value
+            return None
+        aff = [_affine(ix) for ix in idx_nodes]
+        lv_positions = [a_[0] for a_ in aff if a_ is not None]
+        other_ok = all(a_ is not None or not u_ for a_, u_ in zip(aff, uses_lv))
         if idx_nodes and other_ok and sorted(lv_positions) == sorted(lvars) and isinstance(cur_val, Arr) and cur_val.ndim == len(idx_nodes):
             old = cur_val
-            fixed = {d: ev_with({}, ix) for d, ix in enumerate(idx_nodes) if not (isinstance(ix, ast.Name) and ix.id in lvars)}
+            fixed = {d: ev_with({}, ix) for d, ix in enumerate(idx_nodes) if aff[d] is None}
 
-            def at(*k, old=old, nest=nest, op=op, rhs=rhs, fixed=fixed):
+            def at(*k, old=old, nest=nest, op=op, rhs=rhs, fixed=fixed, aff=aff):
                 kz = [to_z3(x) for x in k]
                 bind, conds = {}, []
                 for d, ix in enumerate(idx_nodes):
                     if d in fixed:
                         conds.append(kz[d] == to_z3(fixed[d]))
                     else:
-                        v, lo_, hi_ = nest[lvars.index(ix.id)]
-                        bind[v] = kz[d]
-                        conds.append(z3.And(kz[d] >= to_z3(lo_), kz[d] < to_z3(hi_)))
+                        vname, off = aff[d]
+                        v, lo_, hi_ = nest[lvars.index(vname)]
+                        bind[v] = kz[d] - off
+                        conds.append(z3.And(kz[d] - off >= to_z3(lo_), kz[d] - off < to_z3(hi_)))
                 e = ev_with(bind, rhs)
                 want = "real" if old.dtype == "real" else None
                 e = to_z3(e, want)
